@@ -68,6 +68,8 @@ class Unit:
         self.records = {}    # qualified record name -> decl
         self.globals = {}    # name -> VarDecl at namespace scope
         seen = set()
+        self._fnstack = []; self._lamcount = {}
+        self.aliases = {}    # stable lambda key -> mangled name
         for o in self.objs:
             self._index(o, [], seen)
 
@@ -81,9 +83,22 @@ class Unit:
             else:
                 self.by_id[i] = n
             n['_scope'] = '::'.join(scope)
+        pushed = False
         if k in ('FunctionDecl', 'CXXMethodDecl', 'CXXConstructorDecl', 'CXXConversionDecl', 'CXXDestructorDecl'):
             if any(c.get('kind') == 'CompoundStmt' for c in n.get('inner', [])) and n.get('mangledName'):
                 self.funcs[n['mangledName']] = n
+                key = n['mangledName']
+                if n['mangledName'] in self.aliases.values():
+                    key = [a for a, m_ in self.aliases.items() if m_ == n['mangledName']][0]     # second visit of the same lambda body
+                elif self._fnstack and n.get('name') == 'operator()':
+                    # a lambda's call operator: also reachable under a key that does not depend on the TU-wide lambda numbering
+                    # ("lambda:<enclosing function>:<ordinal>[.<ordinal of nested lambda>...]", ordinals in source order)
+                    parent = self._fnstack[-1]
+                    i_ = self._lamcount.get(parent, 0); self._lamcount[parent] = i_ + 1
+                    key = (parent + '.%d' % i_) if parent.startswith('lambda:') else 'lambda:%s:%d' % (parent, i_)
+                    self.funcs[key] = n; self.aliases[key] = n['mangledName']
+                if k in ('FunctionDecl', 'CXXMethodDecl') :
+                    self._fnstack.append(key); pushed = True
         if k == 'CXXRecordDecl' and n.get('completeDefinition') and n.get('name'):
             self.records['::'.join(scope + [n['name']])] = n
         if k == 'VarDecl' and scope and all(s_ for s_ in scope) and n.get('_fnlevel') is None and len(scope) >= 1 and not n.get('_infn'):
@@ -93,6 +108,7 @@ class Unit:
             sub = scope + [n['name']]
         for c in n.get('inner', []):
             self._index(c, sub, seen)
+        if pushed: self._fnstack.pop()
 
 
 def short(n, d=0, maxd=99, out=None):
